@@ -153,7 +153,8 @@ pub fn exec_metrics(case: &Value) -> Vec<Value> {
     // the edit-distance cases are run over an ASCII and over a multi-byte alphabet
     if get_str(case, "kind") == "med" && case.get("malpha").is_none() {
         let mut out = vec![];
-        for al in ["ascii", "multi"] {
+        // ("shareq": characters that share their first code point and have no precomposed form)
+        for al in ["ascii", "multi", "shareq"] {
             let mut c = case.clone();
             c["malpha"] = json!(al);
             out.extend(exec_metrics(&c));
@@ -200,7 +201,8 @@ pub fn exec_metrics(case: &Value) -> Vec<Value> {
                 out["mode"] = json!(mode_s);
                 // character views for the whitespace operations of Ws.tla
                 let mut cp = crate::p_ws::Cp::new();
-                let prep = |s: &str| text_utils::text::clean(s, true);
+                // the texts as the metric prepares them: cleaned, then NFKC
+            let prep = |s: &str| text_utils::unicode::normalize(&text_utils::text::clean(s, true), text_utils::unicode::Normalization::NFKC, true);
                 out["icv"] = Value::Array(inp.iter().map(|s| cp.view(&prep(s), g)).collect());
                 out["pcv"] = Value::Array(pred.iter().map(|s| cp.view(&prep(s), g)).collect());
                 out["tcv"] = Value::Array(tgt.iter().map(|s| cp.view(&prep(s), g)).collect());
@@ -241,11 +243,12 @@ pub fn exec_metrics(case: &Value) -> Vec<Value> {
         }
         _ => {
             // mean (normalised) edit distance over strings of the "ascii" alphabet or (malpha = "multi") of 2-4 byte letters
-            let al = alphabet(if get_str(case, "malpha") == "multi" { "multi" } else { "ascii" });
+            let al = alphabet(match get_str(case, "malpha") { "multi" => "multi", "shareq" => "shareq", _ => "ascii" });
             let a: Vec<String> = case["a"].as_array().unwrap().iter().map(|t| concretise(t, &al)).collect();
             let b: Vec<String> = case["b"].as_array().unwrap().iter().map(|t| concretise(t, &al)).collect();
             let mut int = Interner::default();
-            let prep = |s: &str| text_utils::text::clean(s, true);
+            // the texts as the metric prepares them: cleaned, then NFKC
+            let prep = |s: &str| text_utils::unicode::normalize(&text_utils::text::clean(s, true), text_utils::unicode::Normalization::NFKC, true);
             let av: Vec<Value> = a.iter().map(|s| view_iw(&prep(s), g, &mut int)).collect();
             let bv: Vec<Value> = b.iter().map(|s| view_iw(&prep(s), g, &mut int)).collect();
             let med = match guard(|| mean_edit_distance(&a, &b, g)) {
@@ -310,6 +313,15 @@ pub fn gen_metrics(seed: u64, n: usize) -> Vec<Value> {
                             if rng.random_bool(0.2) { format!(" {s}  ") } else { s }
                         };
                         input.push(respace(&mut rng)); pred.push(respace(&mut rng)); target.push(respace(&mut rng));
+                    }
+                    // one case in eight: the prediction (or the target) of one sequence stops early or has another letter - an
+                    // error for the whitespace metric, never a panic
+                    if k > 0 && rng.random_bool(0.125) {
+                        let j = rng.random_range(0..k);
+                        let which = if rng.random_bool(0.7) { &mut pred } else { &mut target };
+                        let mut cs: Vec<char> = which[j].chars().collect();
+                        if rng.random_bool(0.6) { let cut = rng.random_range(0..=cs.len()); cs.truncate(cut); } else { cs.push('z'); }
+                        which[j] = cs.into_iter().collect();
                     }
                     let mode = ["insertions", "deletions", "both"][rng.random_range(0..3)];
                     json!({"kind": "whitespace", "input": input, "pred": pred, "target": target, "bn": bn, "bd": bd, "g": rng.random_bool(0.5), "mode": mode})
